@@ -392,3 +392,28 @@ Lemma eq_int_wrong_list : json_eq_int (JList [JInt 7]) 0 = true /\ py_eq_int (JL
 Proof. split; reflexivity. Qed.
 Lemma eq_str_wrong_int : json_eq_str (JInt 7) [55] = true /\ py_eq_str (JInt 7) [55] = false.
 Proof. split; reflexivity. Qed.
+
+(* ------------------------------------------------------------------ the bind-parameter key of a parameterised JSON path determines the path *)
+Lemma paramkey_item_inj a b : paramkey_item a = paramkey_item b -> a = b.
+Proof. destruct a, b; cbn; intros H; inversion H; reflexivity. Qed.
+
+Lemma paramkey_sound p : forall q, paramkey p = paramkey q -> p = q.
+Proof.
+  unfold paramkey. induction p as [|a p IH]; intros [|b q] H; cbn in H; try discriminate; [reflexivity|].
+  inversion H as [[Ha Hp]]. f_equal; [now apply paramkey_item_inj | now apply IH].
+Qed.
+
+Lemma paramkey_same_path p q : paramkey p = paramkey q -> forall env, resolve env p = resolve env q.
+Proof. intros H env. now rewrite (paramkey_sound p q H). Qed.
+
+(* a key that forgets the constant steps is not sound: two paths differing in a literal step would share one parameter *)
+Definition forgetful_key (items : list jitem) : list kitem :=
+  map (fun i => match i with IParam id => KP id | _ => KNone end) items.
+Lemma forgetful_key_unsound :
+  forgetful_key [IParam 0; ILit (KKey [108; 111])] = forgetful_key [IParam 0; ILit (KKey [104; 105])]
+  /\ resolve (fun _ => KKey [107]) [IParam 0; ILit (KKey [108; 111])] <> resolve (fun _ => KKey [107]) [IParam 0; ILit (KKey [104; 105])].
+Proof. split; [reflexivity | discriminate]. Qed.
+
+(* 5 < 12 between two JSON items is false: the texts "5" and "12" are compared *)
+Lemma items_ordered_as_text : json_items_lt (JInt 5) (JInt 12) = false /\ json_items_lt (JInt 12) (JInt 5) = true.
+Proof. split; reflexivity. Qed.
